@@ -11,6 +11,13 @@
 // response (status, headers, body). The same probe is then served by a FRESH app after all
 // sync.Pools have been emptied (two GC cycles). The case line carries P on the fresh app, the list of
 // full-vector entries that differ, and P after the history (the implementation's observation).
+//
+// Modes: 0 one connection per request, 1 keep-alive pipelining, 2 concurrent mix (four workers on one
+// app), 3/4 = 0/1 with a custom context (app.NewCtxFunc: customRequestHandler / nextCustom).
+// The app's ErrorHandler plants state in every channel (view binding, redirect message + status, binder
+// mode, base URL) before answering like the default one: it runs for 404, 405, handler errors and - via
+// serverErrorHandler - for requests fasthttp rejects (bad = 1 control byte in a header, 2 garbage request
+// line, 3 request cut off in the middle of its headers).
 package main
 
 import (
@@ -51,7 +58,7 @@ type request struct {
 	query    []kv
 	hasFlash bool
 	flash    string // raw cookie value
-	bad      int    // 0 well-formed, 1 control byte in a header value, 2 garbage request line
+	bad      int    // 0 well-formed, 1 control byte in a header value, 2 garbage request line, 3 truncated headers
 	script   []action
 }
 
@@ -123,7 +130,7 @@ func (q request) valid() bool {
 	default:
 		return false
 	}
-	if !isPath(q.path) || q.bad < 0 || q.bad > 2 || !isHost(q.host) {
+	if !isPath(q.path) || q.bad < 0 || q.bad > 3 || !isHost(q.host) {
 		return false
 	}
 	for _, p := range q.query {
@@ -276,6 +283,9 @@ func (q request) wire(id int) []byte {
 		b.WriteString("Content-Length: 0\r\n")
 	}
 	b.WriteString("\r\n")
+	if q.bad == 3 {
+		return b.Bytes()[:b.Len()-7] // the connection ends in the middle of the header block
+	}
 	return b.Bytes()
 }
 
@@ -330,9 +340,29 @@ func fmtMsg(k, v string, level uint8, old bool) string {
 	return hx(k) + "." + hx(v) + "." + strconv.Itoa(int(level)) + "." + o
 }
 
-func newSite() *site {
+// customCtx is what an application gets from the documented NewCtxFunc pattern.
+type customCtx struct {
+	fiber.DefaultCtx
+}
+
+// errorHandler is an application error page: it touches every per-request channel of the context and
+// then answers like the default handler.
+func errorHandler(c fiber.Ctx, err error) error {
+	_ = c.ViewBind(fiber.Map{"eh": "1"})
+	c.Redirect().With("eh", "1", 7).Status(307)
+	c.Bind().WithAutoHandling()
+	_ = c.BaseURL()
+	return fiber.DefaultErrorHandler(c, err)
+}
+
+func newSite(custom bool) *site {
 	s := &site{scripts: map[int][]action{}, obsBy: map[int]*probeObs{}}
-	s.app = fiber.New(fiber.Config{Views: &viewEngine{}})
+	s.app = fiber.New(fiber.Config{Views: &viewEngine{}, ErrorHandler: errorHandler})
+	if custom {
+		s.app.NewCtxFunc(func(app *fiber.App) fiber.CustomCtx {
+			return &customCtx{DefaultCtx: *fiber.NewDefaultCtx(app)}
+		})
+	}
 	s.app.Use(func(c fiber.Ctx) error {
 		c.Set("X-Mw", "1")
 		return c.Next()
@@ -717,10 +747,10 @@ func (s *site) setScripts(hist []request, probe request, idBase int) {
 // (GOMAXPROCS 4) against ONE app, so pooled contexts and Redirect objects travel between them; every
 // worker's probe must observe the same; a deviating worker's observation is the one reported.
 func run(mode int, hist []request, probe request) (string, map[string]string) {
-	s := newSite()
+	s := newSite(mode >= 3)
 	if mode != 2 {
 		s.setScripts(hist, probe, 0)
-		out := s.serveSeq(mode, hist, probe, 0, 80)
+		out := s.serveSeq(mode%3, hist, probe, 0, 80)
 		resp, ok := lastResponse(out)
 		if !ok {
 			return "noresponse", nil
@@ -967,7 +997,11 @@ func observeCase(mode int, hist []request, probe request) (fresh, diff, impl str
 	emptyPools()
 	pHist, fullHist := run(mode, hist, probe)
 	emptyPools()
-	pFresh, fullFresh := run(0, nil, probe)
+	freshMode := 0
+	if mode >= 3 {
+		freshMode = 3 // the fresh app is of the same kind
+	}
+	pFresh, fullFresh := run(freshMode, nil, probe)
 	var d []string
 	for k, v := range fullFresh {
 		if fullHist[k] != v {
@@ -1017,6 +1051,9 @@ func genPath(r *gen.Rand) string {
 	case 4, 5:
 		return "/q/" + w()
 	case 6:
+		if r.Chance(1, 4) {
+			return "/s" // the wildcard matches the empty string
+		}
 		return "/s/" + w()
 	case 7:
 		return "/s/" + w() + "/" + w()
@@ -1163,8 +1200,8 @@ func genRequest(r *gen.Rand, probe bool) request {
 			}
 		}
 	}
-	if !probe && r.Chance(1, 10) {
-		q.bad = 1 + r.Intn(2)
+	if !probe && r.Chance(1, 8) {
+		q.bad = 1 + r.Intn(3)
 	}
 	q.script = genScript(r, probe)
 	return q
@@ -1179,7 +1216,7 @@ func main() {
 	defer w.Close()
 	if o.Replay != "" {
 		for _, f := range gen.ReplayInputs(o.Replay) {
-			if len(f) < 4 || (f[1] != "0" && f[1] != "1" && f[1] != "2") {
+			if len(f) < 4 || (f[1] != "0" && f[1] != "1" && f[1] != "2" && f[1] != "3" && f[1] != "4") {
 				continue
 			}
 			bad := false
@@ -1215,6 +1252,8 @@ func main() {
 		mode := r.Intn(2)
 		if (o.Tier == "thorough" && r.Chance(1, 4)) || r.Chance(1, 40) {
 			mode = 2 // concurrent mix
+		} else if r.Chance(1, 5) {
+			mode += 3 // custom context
 		}
 		w.Count(fmt.Sprintf("hist=%d", len(hist)))
 		w.Count("mode=" + strconv.Itoa(mode))
